@@ -219,6 +219,14 @@ def props_check(pid, extra_targets=()):
     Returns dict(obligations, discharged, failed=[names], axioms={thm: [..]}, log)."""
     vfile = "Props/Properties_%s.v" % pid
     vo = vfile + "o"
+    # the header constants (Gen/GenConsts.v) sit under most models: regenerate them from the current tree first
+    # (written only when the content changes)
+    try:
+        sys.path.insert(0, os.path.join(VERIF, "translators"))
+        import t0_consts
+        t0_consts.main()
+    except Exception as ex:     # the check's own translator run reports the details
+        log("t0_consts failed: %r" % (ex,))
     # force re-execution of the props file so Print Assumptions output is captured
     try:
         os.remove(os.path.join(COQDIR, vo))
